@@ -760,8 +760,8 @@ func (g *Gen) World() *World {
 				}
 				for k := 0; k < 1+g.n(2) && len(names) > 0; k++ {
 					nm := names[g.n(len(names))]
-					if len(nm) > 1 {
-						nm = nm[:1+g.n(len(nm)-1)]
+					if r := []rune(nm); len(r) > 1 {
+						nm = string(r[:1+g.n(len(r)-1)]) // cut between characters
 					}
 					at := g.n(len(f.Items) + 1)
 					f.Items = append(f.Items[:at:at], append([]*Item{{Bare: nm}}, f.Items[at:]...)...)
